@@ -52,4 +52,9 @@ BENIGN = [
     {'id': 'B15-rename-helper-fns', 'all': True, 'edits': [
         (P, "fn xor_2<", "fn xor_arrays<"), (P, "xor_2(&S,", "xor_arrays(&S,"),
         (P, "fn shuffle<T>", "fn shuffle_in_place<T>"), (P, "shuffle(&mut", "shuffle_in_place(&mut")]},
+    {'id': 'B16-extract-digest-helpers', 'edits': [
+        (P, "/// Attempts to open the given classic encapsulations with this user secret key.\nfn c_decaps(",
+            "/// Computes the digest T over the traps (classic mode).\nfn classic_t(c: &[<ElGamal as Nike>::PublicKey]) -> Result<Secret<SHARED_SECRET_LENGTH>, Error> {\n    let mut hasher = Sha3::v256();\n    let mut T = Secret::<SHARED_SECRET_LENGTH>::new();\n    c.iter().try_for_each(|ck| {\n        hasher.update(&ck.serialize()?);\n        Ok::<_, Error>(())\n    })?;\n    hasher.finalize(&mut *T);\n    Ok(T)\n}\n\n/// Computes the digest U over T and the masked seeds.\nfn digest_u<'a>(\n    T: &Secret<SHARED_SECRET_LENGTH>,\n    seeds: impl Iterator<Item = &'a [u8; SHARED_SECRET_LENGTH]>,\n) -> Secret<SHARED_SECRET_LENGTH> {\n    let mut U = Secret::<SHARED_SECRET_LENGTH>::new();\n    let mut hasher = Sha3::v256();\n    hasher.update(&**T);\n    seeds.for_each(|F| hasher.update(F));\n    hasher.finalize(&mut *U);\n    U\n}\n\n/// Attempts to open the given classic encapsulations with this user secret key.\nfn c_decaps("),
+        (P, "    encs: &Vec<[u8; SHARED_SECRET_LENGTH]>,\n) -> Result<Option<Secret<SHARED_SECRET_LENGTH>>, Error> {\n    let T = {\n        let mut hasher = Sha3::v256();\n        let mut T = Secret::<SHARED_SECRET_LENGTH>::new();\n        c.iter().try_for_each(|ck| {\n            hasher.update(&ck.serialize()?);\n            Ok::<_, Error>(())\n        })?;\n        hasher.finalize(&mut *T);\n        T\n    };\n\n    let U = {\n        let mut U = Secret::<SHARED_SECRET_LENGTH>::new();\n        let mut hasher = Sha3::v256();\n        hasher.update(&*T);\n        encs.iter().for_each(|F| hasher.update(F));\n        hasher.finalize(&mut *U);\n        U\n    };\n",
+            "    encs: &Vec<[u8; SHARED_SECRET_LENGTH]>,\n) -> Result<Option<Secret<SHARED_SECRET_LENGTH>>, Error> {\n    let T = classic_t(c)?;\n    let U = digest_u(&T, encs.iter());\n")]},
 ]
